@@ -15,8 +15,11 @@ def load_checks():
     """one JSON fragment per claimed property: harness/manifest.d/<id>.json with keys
     category, text, design_ref, note, technique"""
     out = {}
+    # only properties the lead has integrated and run on the unchanged tree are claimed
+    enabled = (VERIF / "harness" / "manifest.d" / "ENABLED").read_text().split()
     for f in sorted((VERIF / "harness" / "manifest.d").glob("C*.json")):
-        out[f.stem] = json.loads(f.read_text())
+        if f.stem in enabled:
+            out[f.stem] = json.loads(f.read_text())
     return out
 
 
